@@ -93,6 +93,9 @@ pub fn listed_key_forms() -> Vec<PublicKey> {
         PublicKey::from_ed25519_with_keyid_hash_algorithms(ed.as_bytes().to_vec(), Some(vec!["sha256".to_string()])).unwrap(),
         PublicKey::from_ecdsa(ec.as_bytes().to_vec()).unwrap(),
         PublicKey::from_ecdsa_with_keyid_hash_algorithms(ec.as_bytes().to_vec(), Some(vec!["sha512".to_string()])).unwrap(),
+        // the hash-algorithm list present but empty
+        PublicKey::from_ed25519_with_keyid_hash_algorithms(ed.as_bytes().to_vec(), Some(vec![])).unwrap(),
+        PublicKey::from_ecdsa_with_keyid_hash_algorithms(ec.as_bytes().to_vec(), Some(vec![])).unwrap(),
         ec.clone(),
         PublicKey::from_spki(&rsa.as_spki().unwrap(), SignatureScheme::RsaSsaPssSha512).unwrap(),
         rsa.clone(),
@@ -316,6 +319,16 @@ pub fn edit_signed(signed: &mut Value, field: &str, scn: &Value, rng: &mut impl 
             signed["steps"][0]["pubkeys"].as_array_mut().unwrap().pop();
             true
         }
+        // the same identifier spelled with another letter case is ANOTHER identifier (it authorises nobody)
+        "pubkeys_case" if !is_link => {
+            let id = signed["steps"][0]["pubkeys"][0].as_str().unwrap().to_string();
+            let flipped: String = match id.char_indices().find(|(_, c)| c.is_ascii_lowercase()) {
+                Some((i, c)) => format!("{}{}{}", &id[..i], c.to_ascii_uppercase(), &id[i + 1..]),
+                None => return false,
+            };
+            signed["steps"][0]["pubkeys"][0] = json!(flipped);
+            true
+        }
         "pubkeys_swap" if !is_link => {
             signed["steps"][0]["pubkeys"].as_array_mut().unwrap().reverse();
             true
@@ -406,7 +419,22 @@ pub fn edit_signed(signed: &mut Value, field: &str, scn: &Value, rng: &mut impl 
 
 impl Ctx {
     pub fn new(family: &str) -> Ctx {
-        Ctx { km: KeyMap::new(family, &["k1", "k2", "k3", "kx"]), family: family.to_string(), rng: rng(9) }
+        let mut km = KeyMap::new(family, &["k1", "k2", "k3", "kx"]);
+        // "k1b": the key material of k1 under another (valid) declaration - another key id, another signer
+        let der = crate::keys::raw_der(family, 0);
+        let alt = match family {
+            "ed25519" => {
+                let mut pair = der[16..48].to_vec();
+                pair.extend_from_slice(km.pk("k1").as_bytes());
+                in_toto::crypto::PrivateKey::from_ed25519(&pair).expect("ed25519 seed + public key")
+            }
+            "rsa2048-256" | "rsa4096-256" => in_toto::crypto::PrivateKey::from_pkcs8(der, SignatureScheme::RsaSsaPssSha512).unwrap(),
+            "rsa2048-512" | "rsa4096-512" => in_toto::crypto::PrivateKey::from_pkcs8(der, SignatureScheme::RsaSsaPssSha256).unwrap(),
+            _ => crate::keys::load("ed25519", 4),
+        };
+        km.add("k1b", alt);
+        assert_ne!(km.idstr("k1"), km.idstr("k1b"));
+        Ctx { km, family: family.to_string(), rng: rng(9) }
     }
 
     /// the material of `name` declared with another scheme
@@ -444,6 +472,16 @@ impl Ctx {
                 worst = r;
             }
             return worst;
+        }
+        // ECDSA keys have one declaration only: no "same material, other id" signer in that family
+        let has_k1b = scn["ops"][0]["signers"].as_array().map(|a| a.iter().any(|x| x == "k1b")).unwrap_or(false);
+        if self.family == "ecdsa" && has_k1b {
+            return json!({"skip": "no alternative declaration for this key type"});
+        }
+        // RSA keys have exactly two declarations: the "redeclared" key k1* of the specification would BE k1b
+        let redeclares = scn["ops"].as_array().unwrap().iter().any(|o| o["op"] == "relabel_star" || o["keys"].as_str().map(|k| k.starts_with("redeclare")).unwrap_or(false));
+        if self.family.starts_with("rsa") && has_k1b && redeclares {
+            return json!({"skip": "the only other declaration of this key type is the second signer"});
         }
         let kind = scn["doc"].as_str().unwrap();
         let s = instantiate(&scn["s"], &mut self.rng);
